@@ -49,6 +49,17 @@ func ExecNL(op M) (res any) {
 	if v, ok := op["ty"]; ok {
 		ty = sbom.Edge_Type(asInt(v))
 	}
+	if op["intern"] == true {
+		for _, l := range []*sbom.NodeList{a, b} {
+			if l != nil {
+				for _, nd := range l.Nodes {
+					if nd != nil {
+						internPersons(nd)
+					}
+				}
+			}
+		}
+	}
 	need := map[string][]any{"cleanEdges": {a}, "union": {a, b}, "union3": {a, b, c}, "intersect": {a, b}, "add": {a, b},
 		"removeNodes": {a}, "relateNode": {a, pn}, "relateList": {a, b}, "nodeGraph": {a}, "nodeSiblings": {a},
 		"nodeDescendants": {a}, "purlType": {a}, "byName": {a}, "byID": {a}, "byIdent": {a}, "rootNodes": {a},
